@@ -212,10 +212,15 @@ class Flow:
                 final_exit = self.cond(cond, False, d.copy(after))
             elif after is not None:
                 final_exit = after
+        if test_first and cond:
+            # the loop is left either before the first iteration (the test fails on the entry state) or after some iteration (it
+            # fails on a state that came round the back edge); testing the two apart keeps what every iteration establishes
+            # (head = entry joined with the back-edge states, so this is no less sound than testing the joined head)
+            first = self.cond(cond, False, d.copy(s))
+            later = self.cond(cond, False, d.copy(after)) if after is not None else None
+            final_exit = self.j(first, later)
         final_exit = self.j(final_exit, o.brk)
         loop_gotos = self.jg(loop_gotos, o.gotos)
-        if test_first and not cond:
-            pass
         return Outcome(nxt=final_exit, gotos=loop_gotos)
 
     def switch(self, n, s):
